@@ -26,6 +26,7 @@ MODELS = [
     ("MC_hist", {"Family": '"wb"', "Tier": '"quick"', "Export": "FALSE", "Defects": '{"bg_drops_refs"}'}, {"C08"}),
     ("MC_hist", {"Family": '"inval"', "Tier": '"quick"', "Export": "FALSE", "Defects": '{"four_unsafe_methods"}'}, {"C07"}),
     ("MC_store", {"Family": '"store"', "Tier": '"quick"', "Export": "FALSE", "Defects": '{"store_304"}'}, {"C06"}),
+    ("MC_store", {"Family": '"store"', "Tier": '"quick"', "Export": "FALSE", "Defects": '{"oic_bypass_forwards"}'}, {"C18"}),
     ("MC_conc", {"Tier": '"quick"', "Export": "FALSE", "Defects": '{"bg_shares_response"}'}, {"C16"}),
     ("MC_swr", {"Tier": '"quick"', "Export": "FALSE", "SwrSetting": "0", "Defects": '{"bg_shares_response"}'}, {"C16"}),
     ("MC_swr", {"Tier": '"quick"', "Export": "FALSE", "SwrSetting": "0", "Defects": '{"swr_strips_validators"}'}, {"C20"}),
@@ -64,6 +65,7 @@ REVERTS = [
     ("the TE field is removed", ["C05"]), ("connection-level fields written by the entry serialisation", ["C05"]),
     ("an encrypted fscache entry is bound", ["C17"]), ("only-if-cached with max-age=0", ["C11"]),
     ("fscache lists keys relative", ["C14"]), ("the background revalidation of a stale-while-revalidate serve is built", ["C20"]),
+    ("only-if-cached is honoured for requests the cache never answers", ["C18"]), ("index references keep the exact bytes", ["C19"]), ("fscache.Set writes from its own copy", ["C15"]),
 ]
 
 
